@@ -88,7 +88,13 @@ Step ==
   /\ i <= Len(T.ev)
   /\ LET ev == T.ev[i]
          e == Eval(st, ev)
-     IN IF ~e.judged
+         (* a read-only call outside the judged domain (count < 1, a range the block does not hold) that left every cell   *)
+         (* alone is skipped and the history goes on; anything else outside the domain ends the judgement of this history *)
+         pureSkip == ~e.judged /\ ev.op \in {"validate", "cvalidate", "get", "cget"} /\ ev.chg = <<>> /\ ev.ext = 0
+     IN IF pureSkip
+        THEN /\ UNCHANGED st
+             /\ IF i = Len(T.ev) THEN Verdict("OK", i, {}, [n |-> i]) /\ out' = "done" ELSE out' = "run"
+        ELSE IF ~e.judged
         THEN Verdict("UNJUDGED", i, {}, [ev |-> ev]) /\ out' = "done" /\ UNCHANGED st
         ELSE IF e.fail # {}
         THEN Verdict("FAIL", i, e.fail, [ev |-> ev]) /\ out' = "done" /\ UNCHANGED st
